@@ -96,14 +96,13 @@ def flattenEvent(event: LogEvent) -> None:
             # We've already seen and handled this key
             continue
 
-        if fieldName.endswith("()"):
-            fieldName = fieldName[:-2]
-            callit = True
-        else:
-            callit = False
+        # Resolve the field exactly as formatting the event does, so that call
+        # parentheses are honoured in every segment of the field name.  (The
+        # import is here because _format imports this module.)
+        from ._format import CallMapping
 
-        field = aFormatter.get_field(fieldName, (), event)
-        fieldValue = field[0]
+        field = aFormatter.get_field(fieldName, (), CallMapping(event))
+        fieldValue = field[0]._wrapped
 
         if conversion == "r":
             conversionFunction = repr
@@ -112,14 +111,11 @@ def flattenEvent(event: LogEvent) -> None:
         else:  # Above: if conversion is not "r" or "a", it's "s"
             conversionFunction = str
 
-        if callit:
-            fieldValue = fieldValue()
-
         if formatSpec:
             # Apply the format specification now, as formatting the original
             # event would; a nested replacement field is expanded first.
             if "{" in formatSpec:
-                formatSpec = aFormatter.vformat(formatSpec, (), event)
+                formatSpec = aFormatter.vformat(formatSpec, (), CallMapping(event))
             if explicitConversion is None:
                 flattenedValue = format(fieldValue, formatSpec)
             else:
